@@ -47,7 +47,7 @@ func propC26(e *Env) {
 	dir := filepath.Join(e.Dir, "progs")
 	os.Mkdir(dir, 0o755)
 	e.S.StmtPreempt = e.Choose("knob", 3) == 1
-	names := []string{"a.mtail", "b.mtail", "c.mtail", ".x.mtail", "notes.txt", "a.mtail.bak", "d.mtail.txt"}
+	names := []string{"a.mtail", "b.mtail", "c.mtail", ".x.mtail", "notes.txt", "a.mtail.bak", "d.mtail.txt", "a.v2.mtail"}
 	files := map[string]*c26File{}   // what is on disk (regular files directly in dir)
 	removed := map[string]*c26File{} // the content a file had when it was last removed
 	nextV := map[string]int{}
